@@ -5,7 +5,11 @@
    of the run).  Every public operation is written statement by statement after the C++ (loops = Fixpoints over the
    trip count).  Several vector objects live in numbered slots so that copy / move construction and assignment can
    be expressed.  Element values are Z, a default-constructed T has value [dflt].
-   Allocator oracle: [alloc counter bytes] = address returned by ::operator new(bytes).
+   Allocator oracle: [alloc counter bytes] = address returned by allocate(n) for n * sizeof(T) = bytes, i.e. by
+   detail::alignedMalloc(bytes, alignof(T)) when alignof(T) > alignof(std::max_align_t) (= 16 here) and by
+   ::operator new(bytes) otherwise -- see [allocate_oracle] at the end, which builds it from the two primitive oracles.
+   (State after the two `fix:` commits: new element constructed in the new block before the old elements are moved;
+   resize(n, value) copies the value before growing; over-aligned heap storage from alignedMalloc.)
    Not modelled: exceptions (T's operations and operator new do not throw here); size_t wrap-around of
    newCap * sizeof(T) (counts are nat; the check only uses small counts -- see ASSUMPTIONS of props/C38.py). *)
 From Coq Require Import ZArith List Bool.
@@ -34,10 +38,11 @@ Inductive op :=
 | OReserve (k n : nat)
 | OClear (k : nat)
 | OErase (k i : nat)                     (* erase(begin() + i) *)
-| OPushSelf (k i : nat).                 (* push_back(v[i])  -- the argument is a reference into the vector itself *)
+| OPushSelf (k i : nat)                  (* push_back(v[i])  -- the argument is a reference into the vector itself *)
+| OResizeSelf (k n i : nat).             (* resize(n, v[i]) *)
 
 Section Model.
-  Variable alloc : nat -> Z -> Z.   (* ::operator new *)
+  Variable alloc : nat -> Z -> Z.   (* allocate(): alignedMalloc / ::operator new, see the header *)
   Variable N : nat.                 (* inline capacity *)
   Variable szT : Z.                 (* sizeof(T) *)
 
@@ -53,15 +58,19 @@ Section Model.
   (* size_ = 0: back to inline mode, the heap fields are dead union members *)
   Definition to_inline (v : vec) : vec := mkVec false 0 (inl v) 0 0 [].
 
-  (* ::operator delete(storage_.heap_.ptr): the block's cells cease to exist *)
+  (* deallocate(storage_.heap_.ptr): the block's cells cease to exist *)
   Definition release (v : vec) : M unit :=
     if all_raw (hcells v) then free_block (hblk v) else fail ELeak.
 
-  Definition growToHeap (newCap : nat) (v : vec) : M vec :=
-    id <- new_block alloc (Z.of_nat newCap * szT) ;;
-    r <- move_loop (vsize v) 0 (data v) (repeat Raw newCap) ;;
+  (* moveToHeap(newData, newCap): newData = block [id] with cells [newcells] (possibly already holding the new element) *)
+  Definition moveToHeap (id newCap : nat) (newcells : list cell) (v : vec) : M vec :=
+    r <- move_loop (vsize v) 0 (data v) newcells ;;
     _ <- (if heapb v then release (set_data v (fst r)) else ret tt) ;;
     ret (mkVec true (vsize v) (if heapb v then inl v else fst r) id newCap (snd r)).
+
+  Definition growToHeap (newCap : nat) (v : vec) : M vec :=
+    id <- new_block alloc (Z.of_nat newCap * szT) ;;
+    moveToHeap id newCap (repeat Raw newCap) v.
 
   Definition ensureCapacity (newCap : nat) (v : vec) : M vec :=
     if (newCap <=? N)%nat && negb (heapb v) then ret v
@@ -69,26 +78,22 @@ Section Model.
     else if (hcap v <? newCap)%nat then growToHeap newCap v
     else ret v.
 
-  (* the part of emplace_back before the placement new *)
-  Definition eb_prepare (v : vec) : M vec :=
-    if negb (heapb v) then
-      if (vsize v <? N)%nat then ret v else growToHeap (N * 2) v
-    else if (vsize v =? hcap v)%nat then growToHeap (hcap v * 2) v
-    else ret v.
-
   Definition emplace_back (x : Z) (v : vec) : M vec :=
-    v1 <- eb_prepare v ;;
-    d <- construct (data v1) (vsize v1) x ;;
-    ret (set_size (set_data v1 d) (S (vsize v1))).
+    if (vsize v <? capacity v)%nat then
+      d <- construct (data v) (vsize v) x ;;
+      ret (set_size (set_data v d) (S (vsize v)))
+    else
+      (* the new element is constructed in the new block first, then the old elements are moved over *)
+      let newCap := (capacity v * 2)%nat in
+      id <- new_block alloc (Z.of_nat newCap * szT) ;;
+      d <- construct (repeat Raw newCap) (vsize v) x ;;
+      v1 <- moveToHeap id newCap d v ;;
+      ret (set_size v1 (S (vsize v1))).
 
-  (* push_back(data()[i]): the reference is bound before emplace_back runs and is read after eb_prepare *)
+  (* push_back(data()[i]): the reference is read by T's copy constructor at the placement new, which in both branches
+     of emplace_back happens while the old storage is still intact *)
   Definition push_self (i : nat) (v : vec) : M vec :=
-    v1 <- eb_prepare v ;;
-    x <- (if heapb v
-          then (if (hblk v1 =? hblk v)%nat then readv (hcells v1) i else fail EReadFreed)
-          else readv (inl v1) i) ;;
-    d <- construct (data v1) (vsize v1) x ;;
-    ret (set_size (set_data v1 d) (S (vsize v1))).
+    x <- readv (data v) i ;; emplace_back x v.
 
   Definition pop_back (v : vec) : M vec :=
     match vsize v with
@@ -106,6 +111,15 @@ Section Model.
       d <- destroy_loop (sz - count) count (data v) ;;
       ret (set_size (set_data v d) count)
     else ret v.
+
+  (* resize(count, const T& value): when it has to grow it first copies the value (T saved(value): one constructor, one
+     destructor at the end), grows, and calls itself with the copy *)
+  Definition resize_val (count : nat) (x : Z) (v : vec) : M vec :=
+    if (capacity v <? count)%nat then
+      _ <- client_tmp 1 ;;
+      v1 <- ensureCapacity count v ;;
+      resize count x v1
+    else resize count x v.
 
   Definition destroyAll (v : vec) : M vec :=
     d <- destroy_loop (vsize v) 0 (data v) ;;
@@ -163,7 +177,7 @@ Section Model.
     match o with
     | OCtor k => _ <- get_free s k ;; ret (upd s k (Some empty_vec))
     | OCtorN k n => _ <- get_free s k ;; v <- resize n dflt empty_vec ;; ret (upd s k (Some v))
-    | OCtorNV k n x => _ <- get_free s k ;; _ <- client_tmp 1 ;; v <- resize n x empty_vec ;; ret (upd s k (Some v))
+    | OCtorNV k n x => _ <- get_free s k ;; _ <- client_tmp 1 ;; v <- resize_val n x empty_vec ;; ret (upd s k (Some v))
     | OCtorIL k l => _ <- get_free s k ;; _ <- client_tmp (Z.of_nat (length l)) ;; v <- il_into l empty_vec ;; ret (upd s k (Some v))
     | OCtorCopy k j => _ <- get_free s k ;; src <- get_obj s j ;; v <- copy_into src empty_vec ;; ret (upd s k (Some v))
     | OCtorMove k j => _ <- get_free s k ;; src <- get_obj s j ;; r <- move_into src empty_vec ;;
@@ -180,11 +194,12 @@ Section Model.
                         v1 <- emplace_back x v ;; ret (upd s k (Some v1))
     | OPop k => v <- get_obj s k ;; v1 <- pop_back v ;; ret (upd s k (Some v1))
     | OResize k n => v <- get_obj s k ;; v1 <- resize n dflt v ;; ret (upd s k (Some v1))
-    | OResizeV k n x => v <- get_obj s k ;; _ <- client_tmp 1 ;; v1 <- resize n x v ;; ret (upd s k (Some v1))
+    | OResizeV k n x => v <- get_obj s k ;; _ <- client_tmp 1 ;; v1 <- resize_val n x v ;; ret (upd s k (Some v1))
     | OReserve k n => v <- get_obj s k ;; v1 <- ensureCapacity n v ;; ret (upd s k (Some v1))
     | OClear k => v <- get_obj s k ;; v1 <- clear v ;; ret (upd s k (Some v1))
     | OErase k i => v <- get_obj s k ;; v1 <- erase i v ;; ret (upd s k (Some v1))
     | OPushSelf k i => v <- get_obj s k ;; v1 <- push_self i v ;; ret (upd s k (Some v1))
+    | OResizeSelf k n i => v <- get_obj s k ;; x <- readv (data v) i ;; v1 <- resize_val n x v ;; ret (upd s k (Some v1))
     end.
 
   Fixpoint run (ops : list op) (s : slots) : M slots :=
@@ -204,20 +219,6 @@ Section Model.
   Definition init_slots (K : nat) : slots := repeat None K.
   Definition led0 : ledger := mkLed 0 0 [].
 
-  (* ---- the finding domain "self reference while growing": some push_back(v[i]) happens at size == capacity ---- *)
-  Definition at_capacity (s : slots) (k : nat) : bool :=
-    match nth_error s k with
-    | Some (Some v) => (capacity v <=? vsize v)%nat
-    | _ => false
-    end.
-  Fixpoint selfref_growth (ops : list op) (s : slots) (g : ledger) : bool :=
-    match ops with
-    | [] => false
-    | o :: r =>
-        (match o with OPushSelf k _ => at_capacity s k | _ => false end) ||
-        match step o s g with Ok (s1, g1) => selfref_growth r s1 g1 | Err _ => false end
-    end.
-
   (* ---- addresses ---- *)
   Variable al : Z.                  (* alignof(T) *)
   (* offset of storage_ in the object: size_ (8 bytes) rounded up to alignof(Storage) = max(alignof(T), 8) *)
@@ -233,6 +234,11 @@ Section Model.
   Definition heap_alignedb (s : slots) (g : ledger) : bool :=
     forallb (fun ov => match ov with Some v => vec_heap_aligned g v | None => true end) s.
 End Model.
+
+(* allocate(n) of the repaired code, from the two primitive allocation functions:
+   onew counter bytes = ::operator new(bytes); amalloc counter bytes alignment = detail::alignedMalloc(bytes, alignment) *)
+Definition allocate_oracle (onew : nat -> Z -> Z) (amalloc : nat -> Z -> Z -> Z) (al : Z) : nat -> Z -> Z :=
+  fun c bytes => if 16 <? al then amalloc c bytes al else onew c bytes.
 
 (* ---- the specification: std::vector<T> per slot ---- *)
 Definition sspec := list (option (list Z)).
@@ -270,6 +276,7 @@ Definition spec_step (o : op) (s : sspec) : option sspec :=
   | OClear k => match sget s k with Some l => Some (upd s k (Some [])) | None => None end
   | OErase k i => match sget s k with Some l => if (i <? length l)%nat then Some (upd s k (Some (spec_erase i l))) else None | None => None end
   | OPushSelf k i => match sget s k with Some l => match nth_error l i with Some x => Some (upd s k (Some (l ++ [x]))) | None => None end | None => None end
+  | OResizeSelf k n i => match sget s k with Some l => match nth_error l i with Some x => Some (upd s k (Some (spec_resize n x l))) | None => None end | None => None end
   end.
 
 Fixpoint spec_run (ops : list op) (s : sspec) : option sspec :=
